@@ -131,12 +131,19 @@ def hessian_of_logd(d, n, center=None):
     def f(x):
         try:
             v = d.logd(x)
-            if not np.all(np.isfinite(np.ravel(v))):       # e.g. logdet = inf from stored DIA padding (C04's finding): use the
-                v = d._logupdf(x)                          # un-normalised log-density, same quadratic form
+            if not np.all(np.isfinite(np.ravel(v))) and hasattr(d, "_logupdf"):
+                v = d._logupdf(x)       # normalising constant inf/nan (e.g. logdet over stored DIA padding, C04's finding): the
+                                        # un-normalised log-density has the same quadratic form
         except NotImplementedError:
             v = d._logupdf(x)
         return float(np.ravel(v)[0])
     f0 = f(c)
+    if not np.isfinite(f0):
+        # the object's normalising constant is nan (GMRF neumann order 2, C20's finding) and there is no un-normalised density:
+        # take the quadratic form from the gradient the same object reports,  H e_i = -(grad(c + e_i) - grad(c))
+        g0 = np.asarray(d.gradient(c), dtype=float).ravel()
+        H = np.column_stack([-(np.asarray(d.gradient(c + np.eye(n)[i]), dtype=float).ravel() - g0) for i in range(n)])
+        return 0.5 * (H + H.T)
     fi = [f(c + np.eye(n)[i]) for i in range(n)]
     H = np.zeros((n, n))
     for i in range(n):
@@ -149,6 +156,8 @@ def cov_defect(H, T, tol):
     """|H C H - H| relative: zero iff the draws' covariance C = T T^T is the (generalised) inverse of the density's precision"""
     C = T @ T.T
     R = H @ C @ H - H
+    if not (np.all(np.isfinite(H)) and np.all(np.isfinite(R))):
+        return float("inf"), tol          # a density that cannot be evaluated never passes silently
     return float(np.abs(R).max() / max(1.0, np.abs(H).max())), tol
 
 
@@ -449,15 +458,18 @@ def gaussian_format_cases(ctx, cases):
                 for fmt in SPARSE_FORMATS:
                     k += 1
                     emit(form, struct, fmt, n, ["rng", "global", "N1"][k % 3])
+    # above the threshold (a sparse input takes the same route on both sides of it; each 77 x 77 case costs ~15 s of Coq
+    # time, so the quick tier takes one banded case per storage format and the thorough tier the rest)
     bigs = [76, 77] if not ctx.thorough else [74, 75, 76, 77]
-    for form, structs in forms.items():
-        for struct in structs:
-            for fmt in SPARSE_FORMATS:
-                if not ctx.thorough and not (form == "sqrtprec" and struct in ("upper-bidiag", "lower-bidiag", "tridiag")
-                                             or (fmt in ("dia", "coo") and struct == "tridiag")):
-                    continue
-                k += 1
-                emit(form, struct, fmt, bigs[k % len(bigs)], ["rng", "N1"][k % 2])
+    banded = ("upper-bidiag", "lower-bidiag", "tridiag")
+    big_cfgs = [("sqrtprec", banded[(i + ctx.seed) % 3], fmt) for i, fmt in enumerate(SPARSE_FORMATS)]
+    if ctx.thorough:
+        big_cfgs = [("sqrtprec", st, fmt) for st in banded for fmt in SPARSE_FORMATS]
+        big_cfgs += [(form, "tridiag", fmt) for form in ("sqrtcov", "prec", "cov") for fmt in ("dia", "csr", "coo")]
+        big_cfgs += [(form, "full", "csr") for form in forms] + [("sqrtprec", "diag", "dia"), ("sqrtprec", "full", "dia")]
+    for (form, struct, fmt) in big_cfgs:
+        k += 1
+        emit(form, struct, fmt, bigs[k % len(bigs)], ["rng", "N1"][k % 2])
 
 
 def int_matrix(rng, n, shape):
@@ -1432,6 +1444,17 @@ def run(ctx):
         mhn_cases(ctx, cases)
     finally:
         np.random.set_state(st_saved)
+    # spread the expensive (dimension > 10) cases evenly over the case list, hence over the shards evaluated in parallel
+    big = [c for c in cases if isinstance(c.meta.get("dim"), int) and c.meta["dim"] > 10 and c.meta.get("op") == "gaussian"]
+    if big:
+        small = [c for c in cases if not any(c is b for b in big)]
+        step = max(1, len(small) // len(big))
+        cases = []
+        for i, c in enumerate(small):
+            if i % step == 0 and big:
+                cases.append(big.pop())
+            cases.append(c)
+        cases += big
     return Result(cases=cases, rule=RULE, generated_obligations=n_obl, generated_failed=gen_fail,
                   extra={"rng_call_sites": len(sites)},
                   assumptions=[
